@@ -104,3 +104,19 @@ Theorem C14_qam_gray_neighbours_one_bit : forall (h : nat) (i j : N), (N.succ i 
   GridGeom.lham (GridGeom.qam_label h j i) (GridGeom.qam_label h j (N.succ i)) = 1%nat.
 Proof. exact GridGeom.qam_gray_neighbours. Qed.
 Print Assumptions C14_qam_gray_neighbours_one_bit.
+
+Theorem C14_qam_model_table_is_labelled_so : forall h i j, Gray.exceptions_ok = true -> (i < Labels.order h)%nat -> (j < Labels.order h)%nat ->
+  nth (i * Labels.order h + j) (Labels.qam_patterns (2 * h) true) nil = GridGeom.qam_label h (N.of_nat i) (N.of_nat j).
+Proof. exact GridGeom.qam_patterns_are_labels. Qed.
+Print Assumptions C14_qam_model_table_is_labelled_so.
+
+(* PSK of every order 2^b: the model's label table (tied to the implementation) lists bits(gray i) at index i; circular neighbours,
+   including the wrap-around 2^b - 1 -> 0, carry labels at Hamming distance one *)
+Theorem C14_psk_gray_labels_all_orders : forall b i,
+  ((i < Labels.order b)%nat -> nth i (Labels.psk_patterns b true) nil = GridGeom.psk_label b (N.of_nat i)) /\
+  (forall n : N, (N.succ n < 2 ^ N.of_nat b)%N -> GridGeom.lham (GridGeom.psk_label b n) (GridGeom.psk_label b (N.succ n)) = 1%nat) /\
+  GridGeom.lham (GridGeom.psk_label (S b) (2 ^ N.of_nat (S b) - 1)) (GridGeom.psk_label (S b) 0) = 1%nat.
+Proof.
+  intros b i. split; [apply GridGeom.psk_patterns_are_labels|split; [intros n Hn; now apply GridGeom.psk_gray_neighbours|apply GridGeom.psk_gray_wraparound]].
+Qed.
+Print Assumptions C14_psk_gray_labels_all_orders.
